@@ -6,6 +6,7 @@ import DivanModel.Driver.C16
 import DivanModel.Driver.Reg
 import DivanModel.Driver.Bench
 import DivanModel.Driver.Paint
+import DivanModel.Driver.Pool
 /-! Line-protocol driver. One request per line: `verb args…<TAB>implementation observation`.
     One answer per line: `model observation<TAB>spec verdict on the implementation's observation<TAB>branch tag`. -/
 open Driver
@@ -18,6 +19,7 @@ def dispatch (verb : String) (args : List String) (obs : String) : Option Reply 
   | "natcmp" | "natcmp3" | "argcmp" | "argsort" => C16.handle verb args obs
   | "bench" => Bench.handle args obs
   | "paint" => PaintLab.handle args obs
+  | "pool" => Pool.handle args obs
   | "reg" => Reg.handle args obs
   | "ovw" => Reg.handleOvw args obs
   | _ => none
